@@ -35,6 +35,8 @@ REQUIRED_COUNTERS = ["resolutions_checked", "undefined_checked", "strict_nameerr
 REQUIRED_COUNTERS += ["shadowing_checked"]
 RULE += "; directed scenarios for the names a call body takes as arguments (args=): the call expression reads the same name from the enclosing scope"
 REQUIRED_COUNTERS += ["call_body_args_checked"]
+RULE += "; imported defs named like attributes of the Namespace object (uri, name, cache, ...), by import=* and by name"
+REQUIRED_COUNTERS += ["import_attr_names_checked"]
 RULE += "; read site attr3: only in the args= of an <%include> whose file= is an expression"
 
 _st = {}
@@ -374,6 +376,37 @@ def run_call_body_args(res):
         res.nontrivial("call-body-args", name)
 
 
+# ------------------------------------------------------------------ imported defs named like attributes of the namespace object
+NS_ATTR_NAMES = ["uri", "filename", "name", "template", "module", "cache", "attr", "inherits", "callables", "plain_"]
+
+
+def run_import_attr_names(res):
+    """a def brought in by <%namespace import=...> is that def, also when it is named like an attribute of the
+    Namespace object that delivers it (uri, name, cache, ...): with import="*" and with the def named explicitly"""
+    L = _st["TemplateLookup"]
+    for strict in (False, True):
+        lk = L(strict_undefined=strict)
+        lk.put_string("ns.html", "".join('<%%def name="%s()">DEF-%s</%%def>' % (n, n) for n in NS_ATTR_NAMES))
+        for n in NS_ATTR_NAMES:
+            for how, imp in (("star", "*"), ("explicit", n), ("explicit-list", "plain_, " + n)):
+                res.evaluations += 1
+                res.count("import_attr_names_checked")
+                text = '<%%namespace file="ns.html" import="%s"/>[${%s()}]<%%def name="d()">(${%s()})</%%def>${d()}' % (imp, n, n)
+                lk.put_string("main_%s_%s.html" % (how, n), text)
+                try:
+                    got = lk.get_template("main_%s_%s.html" % (how, n)).render_unicode()
+                except Exception as e:
+                    got = "%s: %s" % (type(e).__name__, e)
+                want = "[DEF-%s](DEF-%s)" % (n, n)
+                if got != want:
+                    fid = None
+                    if how != "star" and n != "plain_" and got.startswith("TypeError: ") and got.endswith("object is not callable"):
+                        fid = "C04/explicit-import-of-def-named-like-namespace-attribute"
+                    res.violate("imported-def-shadowed-by-namespace-attribute-" + how, "strict_undefined=%s: template %r (ns.html defines a def %s) rendered %r, expected %r" % (strict, text, n, got, want),
+                                finding=fid, witness='<%namespace file="ns.html" import="name"/>${name()}: the imported name is the Namespace attribute (a str), not the def')
+            res.nontrivial("import-attr-name", n, strict)
+
+
 # ------------------------------------------------------------------ isolation
 def run_isolation(res):
     L = _st["TemplateLookup"]
@@ -540,6 +573,7 @@ def run_case(case):
     elif k == "shadowing":
         run_shadowing(res)
         run_call_body_args(res)
+        run_import_attr_names(res)
     elif k == "reserved":
         run_reserved(res)
     return res
